@@ -101,6 +101,20 @@ func build(c Case) (*gen.Program, map[string]string, string) {
 	case "indexset":
 		// x := <a>; x[b] = 99
 		return &gen.Program{Main: []gen.Stmt{gen.Def("x", arg(0)), gen.Set(&gen.Index{X: gen.I("x"), I: arg(1)}, gen.N("99"))}}, inputs, "kinds=" + kinds()
+	case "indexset-local", "indexset-free":
+		// the same assignment where x is a local of a function (SETSL) resp. a variable captured by the closure
+		// that assigns (SETSF); a statement after it must not run when the assignment fails
+		I, N := gen.I, gen.N
+		assign := []gen.Stmt{gen.Set(&gen.Index{X: I("x"), I: I("q")}, N("99")), gen.Set(I("t"), N("1"))}
+		body := []gen.Stmt{gen.Def("x", I("p"))}
+		if c.Family == "indexset-local" {
+			body = append(body, assign...)
+		} else {
+			body = append(body, gen.Def("g", &gen.FuncLit{Body: assign}), &gen.ExprStmt{X: gen.C(I("g"))})
+		}
+		body = append(body, &gen.Return{X: I("x")})
+		return &gen.Program{Main: []gen.Stmt{gen.Def("t", N("0")), gen.Def("f", &gen.FuncLit{Params: []string{"p", "q"}, Body: body}),
+			gen.Def("out", gen.C(I("f"), arg(0), arg(1))), gen.Set(I("f"), gen.Undef())}}, inputs, "kinds=" + kinds()
 	case "indexset2":
 		return &gen.Program{Main: []gen.Stmt{gen.Def("x", arg(0)), gen.Set(&gen.Index{X: &gen.Index{X: gen.I("x"), I: arg(1)}, I: arg(2)}, gen.N("99"))}}, inputs, "kinds=" + kinds()
 	case "builtin":
@@ -467,6 +481,10 @@ func main() {
 				}
 				cases = append(cases, Case{Family: "index", Args: []string{a, b}, Form: form})
 				cases = append(cases, Case{Family: "indexset", Args: []string{a, b}, Form: form})
+				if form == "host" {
+					cases = append(cases, Case{Family: "indexset-local", Args: []string{a, b}, Form: form},
+						Case{Family: "indexset-free", Args: []string{a, b}, Form: form})
+				}
 			}
 		}
 	}
